@@ -387,6 +387,8 @@ func labelsSection(x *h.X) {
 
 func windowSet(items []keycat.Item) *ref.KSWindowSet {
 	ws := ref.KSNewWindowSet(8)
+	// what the writer object wrote BEFORE the judged write (keycat: a large cleartext decoy) must not reappear either
+	ws.Add("the decoy keyset written earlier through the same writer object", keycat.DecoySecret)
 	for i, it := range items {
 		if !it.Secret() {
 			continue
